@@ -218,9 +218,9 @@ func policy(o addrObs) []string {
 
 var hostPool = []string{"example.com", "git.example.org", "EXAMPLE.com", "example.com:8080", "a-b.example.io", "xn--nothing.example", "テラフォーム.example.com", "localhost",
 	"example.com:", "example.com:443", "ex_ample.com", "example.com:80:80", "-a.example.com", "a..example.com", "example.com.", "1.2.3.4", "ex%41mple.com", "ex%C3%A9.com", "[::1]", "ab--c.example.com", "a.b-.com"}
-var pathPool = []string{"/repo.git", "/org/repo.git", "/a/b/c", "/x.tgz", "/dl/x.tar.gz", "/x.zip", "", "/", "/a%20b.tgz", "/a b.tgz", "/sp+ace.tgz", "/r.git/",
+var pathPool = []string{"/team%2Frepo.git/", "/a%7Eb/r.git/", "/team%2Frepo.git", "/repo.git", "/org/repo.git", "/a/b/c", "/x.tgz", "/dl/x.tar.gz", "/x.zip", "", "/", "/a%20b.tgz", "/a b.tgz", "/sp+ace.tgz", "/r.git/",
 	"/%41.tgz", "/a%2Fb.tgz", "/a%2fb.tgz", "/a:b.tgz", "/a@b.tgz", "/a;b.tgz", "/x.tgz/", "/~u/x.tar.gz", "/a=b&c.tgz", "/%zz.tgz", "/%4", "/x.TGZ", "/a!b.tgz", "/a'b.tgz", "/a(b)*.tgz", "/a[b].tgz", "/a,b.tgz", "/a$b.tgz", "/x%2Etgz"}
-var subPoolA = []string{"", "modules/vpc", "a", "a/b/c", "..", "a/../b", "./a", "a//b", "a b", "a%20b", "ünï", "a#f", "a?b", "a/", "/a", "a.b/c_d-e", "a:b", "a@b", "a%41", "a+b", "a=b&c", "a;b", "~a", "a!b", "a'(b)*"}
+var subPoolA = []string{"modules/%2e%2e/%2e%2e/secrets", "%2e", "a%2f%2fb", "%2e%2e/x", "", "modules/vpc", "a", "a/b/c", "..", "a/../b", "./a", "a//b", "a b", "a%20b", "ünï", "a#f", "a?b", "a/", "/a", "a.b/c_d-e", "a:b", "a@b", "a%41", "a+b", "a=b&c", "a;b", "~a", "a!b", "a'(b)*"}
 var queryPool = []string{"", "ref=main", "ref=v1.0", "ref=a&ref=b", "depth=1", "archive=tgz", "archive=tar.gz", "archive=zip", "archive=tgz&archive=tgz", "checksum=md5:abc", "a=b", "ref=main&x=y", "sshkey=abc", "REF=main", "ref=a%20b", "ref",
 	"ref=a+b", "ref=", "=x", "&", "ref=a&", "&ref=a", "ref=a;b", "ref=%zz", "archive=tar.gz&z=1&a=2", "archive=tgz&b=%2F&a=x y", "archive=tar.gz&archive=tgz", "a=1&archive=tgz&a=0", "archive=tgz&checksum=x", "checksum=", "archive", "archive=",
 	"ref=a=b", "ref=a?b", "ref=a/b", "ref=%41", "r%65f=x", "x=https://h//y", "archive=tgz&k=ü", "archive=tgz&k=%C3%BC", "archive=tgz&+= ",
@@ -786,6 +786,9 @@ func addrSignatures(o addrObs) []string {
 		}
 		if o.Host == "" && o.Path == "" {
 			sig = append(sig, "opaque_url")
+		}
+		if o.Sub != "" && strings.HasSuffix(o.Path, "/") {
+			sig = append(sig, "package_path_ends_in_slash")
 		}
 	}
 	return sig
